@@ -100,7 +100,8 @@ def run_route(tensors, legs, route, pretrans=None, scalar_last=False):
         new = []
         for (t, l), p in zip(cur, pretrans):
             if p is not None and t.ndim == len(p):
-                t = t.transpose(p)
+                # (every other tensor is reversed with the *default* axes argument, the rest with explicit axes)
+                t = t.transpose(None) if (len(new) % 2 == 0) else t.transpose(p)
                 l = [l[a] for a in p]
             new.append((t, l))
         cur = new
@@ -247,6 +248,10 @@ def make_networks(sym, shape_name, rng, nmax, sizes=(1,), generic=False, conj_la
     cm_opts = [tuple((c, sizes[i % len(sizes)]) for i, c in enumerate(uni[:2]))]
     if sym == "U1":
         cm_opts.append(tuple((c, 1) for c in uni[:3]))
+    if sym in ("Z2Z2", "U1U1"):
+        # legs carrying the (1,1) charge: even for Z2Z2/U1U1 although both components are odd
+        cm_opts.append(tuple((c, 1) for c in (uni[1], uni[3])))
+        cm_opts.append(tuple((c, 1) for c in (uni[0], uni[3])))
     out = []
     # orientation of each leg name on its first tensor
     for orient in itertools.product((False, True), repeat=len(names)):
@@ -292,7 +297,7 @@ def build_family(tier, seed):
     rng = random.Random(seed)
     thorough = tier == "thorough"
     groups = {}
-    for sym, generic in [("Z2", False), ("U1", False)] + ([("Z2Z2", False), ("U1U1", False), ("Z2", True)] if thorough else [("U1U1", False)]):
+    for sym, generic in [("Z2", False), ("U1", False), ("Z2Z2", False), ("U1U1", False)] + ([("Z2", True), ("Z2Z2", True)] if thorough else []):
         for shape in SHAPES:
             n = len(SHAPES[shape])
             if n == 4 and not thorough and shape != "chain4-closed":
